@@ -773,12 +773,31 @@ class Tr:
                 s, t, _v = self.atom_of(a)
                 st += s; ts.append(t)
             return Val(st, tmpl.format(*ts), kind, rty)
-        if key in self.generated:
+        if key in self.generated or (key[0] is None and name not in EXTERNALS and self.ensure_helper(key)) \
+           or (key[0] is not None and self.ensure_helper(key)):
             return self.call_generated(key, None, args)
         # a path like `meta::lines_per_metainfo` / `super::inline_meta::meta::lines_per_metainfo`
         if (None, name) in self.generated and len(path) > 1 and path[-2][0].islower():
             return self.call_generated((None, name), None, args)
         raise Unsupported(f"call of {'::'.join(path)}")
+
+    def ensure_helper(self, key):
+        """a function the sources define but TARGETS does not list: translate it on demand"""
+        if key in self.generated or key not in self.w.fns:
+            return key in self.generated
+        if getattr(self.w, "helper_depth", 0) > 6:
+            raise Unsupported("helper functions nested too deep")
+        self.generated[key] = self.w.fns[key][2]
+        self.w.helper_depth = getattr(self.w, "helper_depth", 0) + 1
+        try:
+            nm, lines = translate_one(self.w, self.generated, key[0], key[1], None)
+        except Unsupported as ex:
+            del self.generated[key]
+            raise Unsupported(f"helper {lean_name(*key)}: {ex}")
+        finally:
+            self.w.helper_depth -= 1
+        self.w.helper_defs.append((nm, lines))
+        return True
 
     def call_generated(self, key, recv, args):
         rty = self.generated[key]
@@ -804,6 +823,12 @@ class Tr:
             return v
         if name == "copy_from_slice":
             return self.copy_from_slice(recv_e, args[0])
+        if name == "contains" and recv_e[0] == "range" and recv_e[1] is not None and recv_e[2] is not None:
+            sa, ta, _ = self.atom_of(recv_e[1])
+            sb, tb, _ = self.atom_of(recv_e[2])
+            sx, tx, _ = self.atom_of(args[0])
+            hi = "≤" if recv_e[3] else "<"
+            return Val(sa + sb + sx, f"({ta} ≤ {tx} ∧ {tx} {hi} {tb})", "pure", "bool", prop=True)
         if recv_e[0] == "path" and len(recv_e[1]) == 1 and recv_e[1][0] == self.sink and name == "write_all":
             sx, tx, vx = self.atom_of(args[0])
             if not is_bytes(vx.ty):
@@ -826,7 +851,7 @@ class Tr:
                 return Val(s, t, "pure", "usize" if ty == "PayloadSize" else "u64")
             lean, fmap = STRUCTS[ty]
             return Val(s, f"{t}.{fmap[f]}", "pure", self.field_type(ty, f))
-        if (ty, name) in self.generated:
+        if (ty, name) in self.generated or (ty in STRUCTS or ty in NEWTYPES) and self.ensure_helper((ty, name)):
             return self.call_generated((ty, name), recv, args)
         s, t = self.atom(recv)
         is_int = ty in INT_TYPES
@@ -907,15 +932,63 @@ class Tr:
 
     def tr_match(self, e, mode="value"):
         s, t, v = self.atom_of(e[1])
+        code, mty = self.match_arms(t, v.ty, e[2], mode)
+        self.last_ty = mty
+        return Val(s, code, "code", mty)
+
+    def match_arms(self, t, scrut_ty, rust_arms, mode):
         arms = []
         mty = None
-        for pats, guard, body in e[2]:
+        rust_arms = list(rust_arms)
+        k = -1
+        while k + 1 < len(rust_arms):
+            k += 1
+            pats, guard, body = rust_arms[k]
             self.last_ty = None
             if guard is not None:
-                raise Unsupported("match guard")
+                # `P if g => A,  P => B`  becomes  `| P => if g then A else B` (the later arm with the
+                # same pattern is the fall-through; anything else is outside the subset)
+                alts = []
+                for p in pats:
+                    alts += self.pats(p, scrut_ty)
+                if len(alts) != 1:
+                    raise Unsupported("match guard on an or-pattern")
+                j = None
+                for jj in range(k + 1, len(rust_arms)):
+                    pj = rust_arms[jj][0]
+                    aj = []
+                    for p in pj:
+                        aj += self.pats(p, scrut_ty)
+                    if len(aj) == 1 and aj[0][0] == alts[0][0]:
+                        j = jj
+                        break
+                if j is None:
+                    raise Unsupported("match guard without a later arm of the same pattern")
+                saved = dict(self.scope)
+                self.scope.update(alts[0][1])
+                gst, gc = self.cond(guard)
+                if gst:
+                    raise Unsupported("effectful match guard")
+                sq = self.seq(body if body[0] == "block" else ("block", [], body), mode)
+                gty = self.last_ty
+                # the fall-through arm (it may be guarded itself: handled by a nested one-arm match)
+                fpats, fguard, fbody = rust_arms[j]
+                if fguard is not None:
+                    raise Unsupported("two guarded arms of the same pattern")
+                self.last_ty = None
+                fsq = self.seq(fbody if fbody[0] == "block" else ("block", [], fbody), mode)
+                self.scope = saved
+                del rust_arms[j]
+                if mty is None:
+                    mty = gty or self.last_ty
+                if mode == "unit":
+                    arms.append(([alts[0][0]], [("ifs", gc, sq, fsq)]))
+                else:
+                    arms.append(([alts[0][0]], [("code", ("if", gc, sq, fsq))]))
+                continue
             alts = []
             for p in pats:
-                alts += self.pats(p, v.ty)
+                alts += self.pats(p, scrut_ty)
             binds = alts[0][1]
             for a in alts[1:]:
                 if set(a[1]) != set(binds):
@@ -930,8 +1003,7 @@ class Tr:
             if mty is None and sq and sq[-1][0] in ("pure", "mon", "code"):
                 mty = self.last_ty
             arms.append(([a[0] for a in alts], sq))
-        self.last_ty = mty
-        return Val(s, ("match", t, arms), "code", mty)
+        return ("match", t, arms), mty
 
     def tr_return(self, e):
         raise Unsupported("return in expression position")
@@ -1242,8 +1314,57 @@ def check_shapes(w):
             raise Unsupported(f"{ty}::{m} is no longer the plain getter of .{f}")
 
 
+def translate_one(w, generated, impl, fn, extra):
+    """-> (lean name, lines).  Helper functions met on the way are translated first and
+    appended to w.helper_defs"""
+    name = lean_name(impl, fn.replace("const:", ""))
+    if fn.startswith("const:"):
+        c = w.consts.get((impl, fn[6:]))
+        if not c:
+            raise Unsupported("constant not found")
+        tr = Tr(w, generated, impl, fn, [], c[1], const_ctx=True)
+        v = tr.tr(c[2])
+        if v.kind != "pure" or v.stmts:
+            raise Unsupported("constant expression too complex")
+        cty = "Bytes" if is_bytes(norm_type(c[1])) else "Nat"
+        return name, [f"def {name} : {cty} := {v.term}"]
+    info = w.fns.get((impl, fn))
+    if not info:
+        raise Unsupported("function not found")
+    file, params, ret, rng = info
+    body = parse_body(w.toks[file], rng)
+    tr = Tr(w, generated, impl, fn, params, ret)
+    sig = []
+    pre = []
+    for p in params:
+        if p[0] == "self":
+            sig.append(f"(self : {lean_type(impl)})")
+        elif is_sink(norm_type(p[1], impl)):
+            pre.append(("letmutp", mangle(p[0][1]), "([] : Bytes)"))
+        else:
+            sig.append(f"({mangle(p[0][1])} : {lean_type(p[1], impl)})")
+            if is_iter(norm_type(p[1], impl)):
+                pre.append(("letmutp", mangle(p[0][1]), mangle(p[0][1])))
+    if extra:
+        sig.append(extra)
+    rty = lean_type(ret, impl) if ret else "Unit"
+    sq = tr.seq(body, "value")
+    if tr.sink:
+        rty = f"(Bytes × {rty})"
+        last = sq[-1]
+        if last[0] == "pure":
+            sq = sq[:-1] + [("pure", f"({mangle(tr.sink)}, {last[1]})")]
+        elif last[0] == "mon":
+            sq = sq[:-1] + [("letm", "ret_", last[1]), ("pure", f"({mangle(tr.sink)}, ret_)")]
+        elif last[0] not in ("return", "throw"):
+            raise Unsupported("shape of the function's last statement")
+    sq = pre + sq
+    return name, [f"def {name} " + " ".join(sig) + f" : R {rty} := do"] + print_seq(sq, 2)
+
+
 def translate_all():
     w = World()
+    w.helper_defs = []
     problems = []
     try:
         check_shapes(w)
@@ -1259,52 +1380,13 @@ def translate_all():
     defs = []
     for f, impl, fn, extra in TARGETS:
         name = lean_name(impl, fn.replace("const:", ""))
+        n_before = len(w.helper_defs)
         try:
-            if fn.startswith("const:"):
-                c = w.consts.get((impl, fn[6:]))
-                if not c:
-                    raise Unsupported("constant not found")
-                tr = Tr(w, generated, impl, fn, [], c[1], const_ctx=True)
-                v = tr.tr(c[2])
-                if v.kind != "pure" or v.stmts:
-                    raise Unsupported("constant expression too complex")
-                cty = "Bytes" if is_bytes(norm_type(c[1])) else "Nat"
-                defs.append((name, [f"def {name} : {cty} := {v.term}"]))
-                continue
-            info = w.fns.get((impl, fn))
-            if not info:
-                raise Unsupported("function not found")
-            file, params, ret, rng = info
-            body = parse_body(w.toks[file], rng)
-            tr = Tr(w, generated, impl, fn, params, ret)
-            sig = []
-            pre = []
-            for p in params:
-                if p[0] == "self":
-                    sig.append(f"(self : {lean_type(impl)})")
-                elif is_sink(norm_type(p[1], impl)):
-                    pre.append(("letmutp", mangle(p[0][1]), "([] : Bytes)"))
-                else:
-                    sig.append(f"({mangle(p[0][1])} : {lean_type(p[1], impl)})")
-                    if is_iter(norm_type(p[1], impl)):
-                        pre.append(("letmutp", mangle(p[0][1]), mangle(p[0][1])))
-            if extra:
-                sig.append(extra)
-            rty = lean_type(ret, impl) if ret else "Unit"
-            sq = tr.seq(body, "value")
-            if tr.sink:
-                rty = f"(Bytes × {rty})"
-                last = sq[-1]
-                if last[0] == "pure":
-                    sq = sq[:-1] + [("pure", f"({mangle(tr.sink)}, {last[1]})")]
-                elif last[0] == "mon":
-                    sq = sq[:-1] + [("letm", "ret_", last[1]), ("pure", f"({mangle(tr.sink)}, ret_)")]
-                elif last[0] not in ("return", "throw"):
-                    raise Unsupported("shape of the function's last statement")
-            sq = pre + sq
-            lines = [f"def {name} " + " ".join(sig) + f" : R {rty} := do"] + print_seq(sq, 2)
-            defs.append((name, lines))
+            nm, lines = translate_one(w, generated, impl, fn, extra)
+            defs += w.helper_defs[n_before:]          # helpers first
+            defs.append((nm, lines))
         except Unsupported as ex:
+            del w.helper_defs[n_before:]
             problems.append((name, str(ex)))
     return defs, problems
 
